@@ -149,7 +149,8 @@ OnNew(e) ==
             \* memory_arena driven directly: the block stacks (block numbers, top = last)
             used |-> <<>>, cach |-> <<>>, acached |-> e.acached,
             ssz |-> e.ssz, sbs |-> e.sbs,      \* static source: size of the storage and of its blocks (0: not known)
-            pools |-> e.pools]                 \* memory_pool_collection: number of free lists (0: not a collection)
+            pools |-> e.pools,                 \* memory_pool_collection: number of free lists (0: not a collection)
+            defres |-> "unseen"]               \* ... whether its reservations are seen to be block / pools ("unseen", "yes", "no")
       famOk == e.r \in OomFamily \cup SizeFamily \/ (e.r = "throw:injected" /\ e.upf > 0)
   IN Result([st EXCEPT !.objs = Append(@, o), !.pend = <<>>, !.inj = 0],
        Chk(ok \/ famOk, "C03", "ThrowIsLibraryFamily", <<"new", e.r>>)
@@ -202,6 +203,16 @@ OnAlloc(e) ==
                !.objs[e.o + 1].net = IF ok /\ ~e.t /\ traitsIface /\ HasLeakChecker(o) THEN @ + e.len ELSE @,
                !.objs[e.o + 1].curblk = IF ok THEN e.b ELSE IF o.fam = "stack" /\ ~e.t THEN -1 ELSE @,
                !.objs[e.o + 1].caps = IF o.fam = "iter" /\ ok THEN [@ EXCEPT ![(e.g % o.N) + 1] = e.cap1] ELSE @,
+               \* the size of a collection's default reservation is implementation defined; the rule about the tail
+               \* of the block below presumes block / pools and is applied only while reservations made with plenty of
+               \* room are seen to have that size (otherwise the mechanism changed: no verdict from that rule)
+               !.objs[e.o + 1].defres =
+                   IF o.fam = "coll" /\ o.pools > 0 /\ e.ups = 0 /\ e.cap0 > e.cap1 /\ LiveBlocksOf(st, o.src) # {}
+                   THEN LET dc == (st.blocks[MaxOf(LiveBlocksOf(st, o.src))].size - o.hdr) \div o.pools
+                            mv == e.cap0 - e.cap1
+                        IN IF e.cap0 < 2 * dc + 64 THEN @
+                           ELSE IF mv >= dc /\ mv < dc + 16 + 2 * cfg.fence + 16 /\ @ # "no" THEN "yes" ELSE "no"
+                   ELSE @,
                !.slog = IF ok /\ o.fam = "stack" THEN Append(@, [id |-> e.id, n |-> e.n, sz |-> e.sz, al |-> e.al, op |-> e.op, t |-> e.t, b |-> e.b, off |-> e.off]) ELSE @,
                \* a request that failed AFTER the stack had moved on to its next (cached) block is part of the history
                \* although it is not in slog: replay expectations across it would compare different sequences
@@ -266,7 +277,7 @@ OnAlloc(e) ==
        \* the composable interface of a collection never grows: a bucket that ran empty gets the default reservation
        \* (current block / number of buckets) or, when that does not fit any more, ALL that is left of the block -
        \* capacity_left() is 0 then, it does not keep reporting bytes that belong to the bucket
-       \cup Chk(~(o.fam = "coll" /\ o.pools > 0 /\ e.t /\ e.ups = 0 /\ e.cap0 > e.cap1 /\ mine # {})
+       \cup Chk(~(o.fam = "coll" /\ o.pools > 0 /\ o.defres = "yes" /\ e.t /\ e.ups = 0 /\ e.cap0 > e.cap1 /\ mine # {})
                   \/ LET defcap == (st.blocks[MaxOf(mine)].size - o.hdr) \div o.pools
                      IN e.cap0 - e.cap1 >= defcap \/ e.cap1 = 0,
                 "C18", "TailHandedOverLeavesNothing", <<o.type, o.bd, e.cap0, e.cap1, o.pools, mine>>)
